@@ -32,6 +32,9 @@ RELAXATIONS = [
 ]
 
 
+SYSTEM_FLAGS = {x.lower(): x for x in ("\\Answered", "\\Flagged", "\\Deleted", "\\Seen", "\\Draft", "\\Recent")}
+
+
 class Reject(Exception):
     pass
 
@@ -214,7 +217,8 @@ class P:
     # -- flags, dates ------------------------------------------------------------------------------
     def flag(self):
         if self.lit("\\", ci=False):
-            return "\\" + self.atom()
+            f = "\\" + self.atom()
+            return SYSTEM_FLAGS.get(f.lower(), f)  # the names of the system flags are case-insensitive
         return self.atom()
 
     def flag_list(self):
